@@ -35,6 +35,9 @@ type Program struct {
 	RepoFns  []*ssa.Function         // every function of the module incl. closures, sorted
 	fnByName map[string]*ssa.Function
 	Overlay  map[string][]byte
+	// Forwarded lists the pass-through methods whose call sites were rewritten into the
+	// call they forward to (forward.go).
+	Forwarded []string
 }
 
 // Options for Load.
@@ -135,6 +138,7 @@ func Load(opts Options) (*Program, error) {
 		}
 		return a.Pos() < b.Pos()
 	})
+	p.inlineForwarders()
 	for _, fn := range p.RepoFns {
 		p.fnByName[fn.String()] = fn
 	}
